@@ -21,7 +21,8 @@ except Exception:
     PARAMS_BASE = {}
 
 
-NO_E23 = False   # set by the driver for a second attempt when an E23 closure contract does not type-check in spec mode
+NO_E23 = False   # set by the driver for a last attempt when an E23 / E25 rewrite does not type-check
+E25_RESULT = False   # second attempt: `map` / `and_then` with a new closure are taken for the Result forms
 
 
 class AnchorLost(Exception):
@@ -559,6 +560,80 @@ class Gen:
             return "path"
         return "bool" if self._bool_closure(st, cl) else None
 
+    ITER_METHODS = {"iter", "into_iter", "iter_mut", "range", "range_raw", "keys", "keys_raw", "prefix_range", "take", "skip", "rev", "filter", "map",
+                    "chain", "zip", "enumerate", "cloned", "copied", "values", "drain", "chars", "bytes", "split", "splitn", "lines", "filter_map", "flat_map"}
+
+    def _inline_combinator(self, st, src, sp, cl, fid, fp) -> bool:
+        """E25: `X.map(|p| B)` -> `(match X { Some(p) => Some(B), None => None })` and likewise and_then / filter / ok_or_else / unwrap_or_else /
+        or_else / map_err / is_some_and: exactly the std definitions of these combinators, so evaluation order and results are unchanged.
+        Only for closures the baseline does not know (they have no contract), with plain identifier parameters and a body without `?`,
+        `return`, `break`, `continue` or nested closures; `map` / `filter` only when the receiver is not an iterator chain. `map` /
+        `and_then` / `filter` are assumed to be the Option forms: if the receiver is a Result the generated file does not compile and the
+        driver rebuilds the unit without E23/E25."""
+        b = cl.bar
+        if cl.arrow is not None: return False
+        if b < 3 or st[b - 1].text != "(" or st[b - 3].text != ".": return False
+        meth = st[b - 2].text
+        if meth not in ("map", "and_then", "filter", "ok_or_else", "unwrap_or_else", "or_else", "map_err", "is_some_and"): return False
+        close = rs.match_close(st, b - 1)
+        if close != cl.body_hi + 1: return False
+        # parameters: identifiers (optionally `mut`, optionally `: Type`) or `_`
+        pats = []
+        if st[b].text == "|":
+            cur = []; i = b + 1
+            while i < cl.params_end:
+                t = st[i]
+                if t.text in rs.OPEN: return False
+                if t.text == ",": pats.append(cur); cur = []
+                else: cur.append(t)
+                i += 1
+            if cur: pats.append(cur)
+        names = []
+        for ptoks in pats:
+            core = [t for t in ptoks]
+            if ":" in [t.text for t in core]: core = core[:[t.text for t in core].index(":")]
+            core = [t for t in core if t.text != "mut"]
+            if len(core) != 1 or not (core[0].kind == "ident" or core[0].text == "_"): return False
+            names.append(core[0].text)
+        body = st[cl.body_lo:cl.body_hi + 1]
+        for t in body:
+            if (t.kind == "punct" and t.text in ("?", "|", "||")) or (t.kind == "ident" and t.text in ("return", "break", "continue", "await", "move")): return False
+        start = rs.postfix_start(st, b - 3, fp.body_open + 1)
+        if start is None: return False
+        if meth in ("map", "filter") and st[b - 4].text == ")":
+            o = b - 4; depth = 0
+            while o > start:
+                if st[o].text in rs.CLOSE: depth += 1
+                elif st[o].text in rs.OPEN:
+                    depth -= 1
+                    if depth == 0: break
+                o -= 1
+            if st[o - 1].kind == "ident" and st[o - 1].text in self.ITER_METHODS: return False
+        a0, b0 = st[start].start, st[close].end
+        if any(not (e <= a0 or s0 >= b0) for (s0, e, _, _) in sp.ops): return False
+        recv = src[st[start].start:st[b - 3].start].rstrip()
+        btxt = src[st[cl.body_lo].start:st[cl.body_hi].end]
+        n = len(names)
+        P = names[0] if n >= 1 else None
+        arms = None
+        if meth == "map" and n == 1 and E25_RESULT: arms = f"Ok({P}) => Ok({btxt}), Err(e__) => Err(e__)"
+        elif meth == "and_then" and n == 1 and E25_RESULT: arms = f"Ok({P}) => {btxt}, Err(e__) => Err(e__)"
+        elif meth == "map" and n == 1: arms = f"Some({P}) => Some({btxt}), None => None"
+        elif meth == "and_then" and n == 1: arms = f"Some({P}) => {btxt}, None => None"
+        elif meth == "filter" and n == 1 and P != "_": arms = f"Some(v__) => {{ let {P} = &v__; if {btxt} {{ Some(v__) }} else {{ None }} }}, None => None"
+        elif meth == "ok_or_else" and n == 0: arms = f"Some(v__) => Ok(v__), None => Err({btxt})"
+        elif meth == "unwrap_or_else" and n == 0: arms = f"Some(v__) => v__, None => {btxt}"
+        elif meth == "unwrap_or_else" and n == 1: arms = f"Ok(v__) => v__, Err({P}) => {btxt}"
+        elif meth == "or_else" and n == 0: arms = f"Some(v__) => Some(v__), None => {btxt}"
+        elif meth == "or_else" and n == 1: arms = f"Ok(v__) => Ok(v__), Err({P}) => {btxt}"
+        elif meth == "map_err" and n == 1: arms = f"Ok(v__) => Ok(v__), Err({P}) => Err({btxt})"
+        elif meth == "is_some_and" and n == 1: arms = f"Some({P}) => {btxt}, None => false"
+        if arms is None: return False
+        new = f"(match {recv} {{ {arms} }})"
+        sp.replace(a0, b0, REP("E25", src[a0:b0], new))
+        self.rewrites.append({"fn": fid, "rule": "E25", "from": f".{meth}(<new closure>)", "to": "the combinator's defining match", "at": self.src_line(st[b].start) if hasattr(self, "src_line") else None})
+        return True
+
     def _bool_closure(self, st, cl) -> bool:
         if cl.arrow is not None or cl.is_block: return False
         body = st[cl.body_lo:cl.body_hi + 1]
@@ -748,6 +823,10 @@ class Gen:
         for k, cl in enumerate(closures, 1):
             # E22: a thunk with a constant body handed to a lazy std combinator -> the eager combinator
             if k not in clos_spec and k not in clos_types and self._thunk_to_eager(st, src, sp, cl, fid):
+                new_closures.discard(k)
+                continue
+            # E25: a new closure handed to an Option / Result combinator -> the combinator's defining `match` (its std implementation)
+            if k in new_closures and k not in clos_spec and k not in clos_types and not NO_E23 and self._inline_combinator(st, src, sp, cl, fid, fp):
                 new_closures.discard(k)
                 continue
             # E6 tuple-pattern params (generated names carry the ordinal the contracts were written against)
